@@ -13,7 +13,7 @@ sys.path.insert(0, os.path.join(HERE, "reg"))
 
 PROPS = {}
 for f in sorted(os.listdir(os.path.join(HERE, "reg"))):
-    if f.startswith("c") and f.endswith(".py"):
+    if f.startswith("c") and f.endswith(".py") and not f.endswith("_k.py") and not f.endswith("_extra.py"):
         m = importlib.import_module(f[:-3])
         if hasattr(m, "PROP"):
             PROPS[m.PROP["id"]] = m.PROP
